@@ -354,6 +354,13 @@ def _mk(tokens, spec):
             s = pd.Series([pd.NA if t is None else v for t, v in zip(tokens, vals)], dtype='string')
         elif dt == 'category':
             s = pd.Series([np.nan if t is None else v for t, v in zip(tokens, vals)], dtype='category')
+        elif dt == 'category_unused':
+            # a categorical column cut out of a larger table: its categories list values that no row of THIS collection holds (every
+            # spelling of every token of the kind) - they are not elements of the collection (seeded change C16-r6m2)
+            wk = _WK[kind]
+            universe = [sp_ for t_ in (wk if not isinstance(wk, dict) else sorted(wk)) for sp_ in (wk[t_] if isinstance(wk, dict) else t_)]
+            cats = list(dict.fromkeys([v for t, v in zip(tokens, vals) if t is not None] + list(universe)))
+            s = pd.Series(pd.Categorical([np.nan if t is None else v for t, v in zip(tokens, vals)], categories=cats))
         else:
             raise ValueError(dt)
         ix = spec.get('idx', 'default')
@@ -385,7 +392,7 @@ def _kinds_of(v):
         return ['num']
     if c == 'series' and dt == 'string':
         return list(_STRLIKE)
-    if c == 'series' and dt == 'category':
+    if c == 'series' and dt in ('category', 'category_unused'):
         return ['num'] + list(_STRLIKE)
     return list(_WK)
 
@@ -401,7 +408,8 @@ _VARIANTS = ([dict(cont=c) for c in ('list', 'tuple', 'set', 'frozenset', 'gen',
              [dict(cont='series', dtype=d, idx=i) for d, i in
               [('object', 'default'), ('object', 'shift'), ('infer', 'rev'), ('infer', 'str'), ('object', 'dup'), ('float', 'shift'),
                ('Int64', 'default'), ('string', 'rev'), ('category', 'default'), ('int64', 'str'), ('infer', 'named'),
-               ('object', 'multi'), ('float', 'default'), ('string', 'dup'), ('category', 'shift')]])
+               ('object', 'multi'), ('float', 'default'), ('string', 'dup'), ('category', 'shift'), ('category_unused', 'default'),
+               ('category_unused', 'str')]])
 
 
 def _vname(v):
